@@ -28,14 +28,27 @@ type mboxClose struct {
 	Writes  int    `json:"writes"` // messages in flight in each direction
 	LatMs   int    `json:"lat_ms"`
 	DropAll bool   `json:"drop_all"` // the relay swallows everything from AtMs-1 on (FIN cannot arrive)
+	// Refreshes: the connection that is closed is the (1+Refreshes)-th of
+	// the session.
+	Refreshes int `json:"refreshes,omitempty"`
 }
 
+// closeSkipped is set by runMboxClose when a later connection of the session
+// did not come up alive.
+var closeSkipped bool
+
 func runMboxClose(t *testing.T, c *mboxClose) (violation string) {
+	closeSkipped = false
 	bo := vnet.InBubble(t, 120*time.Second, func() {
 		r := relay.New(ms(c.LatMs))
 		p, err := newMailboxPairOn(r, c.Seed)
 		if err != nil {
 			violation = "setup: " + err.Error()
+			return
+		}
+		if !p.RefreshAlive(c.Refreshes) {
+			closeSkipped = true
+			p.Close()
 			return
 		}
 		var wg sync.WaitGroup
@@ -199,13 +212,14 @@ func TestC12MailboxClose(t *testing.T) {
 	}
 	rapid.Check(t, func(rt *rapid.T) {
 		c := &mboxClose{
-			Seed:    rapid.Uint64().Draw(rt, "seed"),
-			Who:     rapid.SampledFrom([]string{"client", "server", "both"}).Draw(rt, "who"),
-			Calls:   rapid.IntRange(1, 3).Draw(rt, "calls"),
-			AtMs:    rapid.SampledFrom([]int{0, 1, 50, 1000, 6000, 20000}).Draw(rt, "at"),
-			Writes:  rapid.SampledFrom([]int{0, 1, 5, 40}).Draw(rt, "writes"),
-			LatMs:   rapid.SampledFrom([]int{0, 1, 50}).Draw(rt, "lat"),
-			DropAll: rapid.IntRange(0, 3).Draw(rt, "drop_all") == 0,
+			Seed:      rapid.Uint64().Draw(rt, "seed"),
+			Who:       rapid.SampledFrom([]string{"client", "server", "both"}).Draw(rt, "who"),
+			Calls:     rapid.IntRange(1, 3).Draw(rt, "calls"),
+			AtMs:      rapid.SampledFrom([]int{0, 1, 50, 1000, 6000, 20000}).Draw(rt, "at"),
+			Writes:    rapid.SampledFrom([]int{0, 1, 5, 40}).Draw(rt, "writes"),
+			LatMs:     rapid.SampledFrom([]int{0, 1, 50}).Draw(rt, "lat"),
+			DropAll:   rapid.IntRange(0, 3).Draw(rt, "drop_all") == 0,
+			Refreshes: rapid.SampledFrom([]int{0, 0, 1, 2}).Draw(rt, "refreshes"),
 		}
 		if c.DropAll && c.Writes > 5 {
 			// keep the GBN window (N=20) from filling up: an endpoint whose
@@ -219,7 +233,13 @@ func TestC12MailboxClose(t *testing.T) {
 		if c.DropAll {
 			labels = append(labels, "fin_cannot_arrive")
 		}
-		rec.Case(c.Calls > 1 || c.Writes > 0, fmt.Sprintf("%+v", *c), labels...)
+		if c.Refreshes > 0 && !closeSkipped {
+			labels = append(labels, "mailbox_close_later_connection")
+		}
+		if closeSkipped {
+			labels = append(labels, "later_connection_not_established")
+		}
+		rec.Case((c.Calls > 1 || c.Writes > 0) && !closeSkipped, fmt.Sprintf("%+v", *c), labels...)
 		if rec.WantSample() {
 			rec.Sample(c)
 		}
@@ -260,41 +280,9 @@ func runMboxKeepaliveX(t *testing.T, c *mboxKeepalive) (violation string, skippe
 			return
 		}
 		defer p.Close()
-		for i := 0; i < c.Refreshes; i++ {
-			if !p.Refresh(60 * time.Second) {
-				skipped = true
-				return
-			}
-		}
-		if c.Refreshes > 0 {
-			// a later connection can be killed right after its handshake by
-			// what the previous one left in the relay streams (recorded C10
-			// findings); only a connection that carries a first exchange is
-			// judged
-			// (both directions, and still alive a few seconds later: the
-			// leftovers are delivered right behind the handshake packets)
-			for round := 0; round < 2; round++ {
-				if round == 1 {
-					time.Sleep(3 * time.Second)
-				}
-				for _, d := range []struct{ w, r net.Conn }{{p.C, p.S}, {p.S, p.C}} {
-					d := d
-					go func() { _, _ = d.w.Write([]byte("hello")) }()
-					buf := make([]byte, 16)
-					ok := make(chan bool, 1)
-					go func() { n, err := d.r.Read(buf); ok <- err == nil && string(buf[:n]) == "hello" }()
-					select {
-					case good := <-ok:
-						if !good {
-							skipped = true
-							return
-						}
-					case <-time.After(30 * time.Second):
-						skipped = true
-						return
-					}
-				}
-			}
+		if !p.RefreshAlive(c.Refreshes) {
+			skipped = true
+			return
 		}
 		start := time.Now()
 		type ev struct {
